@@ -3,6 +3,87 @@ from .. import codec_corr as cc
 from . import _codec
 
 
+def allocation_probe(ctx, classes, n_schema, gen):
+    """C10: 'never MemoryError ... time proportional to the input size'.  For every class with an array field: a valid
+    message in which the element count of an array is replaced by a huge one (2^28 .. 2^32) while the data stays a few
+    bytes long.  Decoded in a child process under an address-space cap with the peak allocation traced: the outcome must
+    be a permitted error and the peak must stay within a few MiB."""
+    from .. import envprobe
+    from ..values import describe, to_py
+
+    def with_array(v, n, k=0):
+        """the k-th non-empty array (depth first) set to n copies of its first element"""
+        seen = [0]
+        done = [False]
+
+        def go(x):
+            if done[0]:
+                return x
+            if x[0] == "arr" and x[1]:
+                if seen[0] == k:
+                    done[0] = True
+                    return ("arr", [x[1][0]] * n)
+                seen[0] += 1
+            if x[0] in ("arr", "ent"):
+                return (x[0], [go(y) for y in x[1]])
+            return x
+        out = go(v)
+        return out if done[0] else None
+
+    def uvar(n):
+        out = bytearray()
+        while True:
+            b = n & 0x7F
+            n >>= 7
+            out.append(b | (0x80 if n else 0))
+            if not n:
+                return bytes(out)
+
+    r = gen.r
+    cases = []
+    seen_shapes = set()
+    for idx in range(n_schema):
+        cls = classes[idx]
+        descs = describe(cls)
+        arrays = [d for d in descs if d.array]
+        if not arrays:
+            continue
+        shape = (cls.__flexible__, tuple(sorted((d.kafka or "struct", d.tag is not None) for d in arrays)))
+        if shape in seen_shapes and r.random() > (0.05 if ctx["tier"] == "quick" else 0.5):
+            continue            # one class per (flexibility, kinds of arrays) plus a sample
+        seen_shapes.add(shape)
+        got_k = set()
+        for attempt in range(12):
+            k = attempt % 4                   # every array field of the class, not only the first
+            if k in got_k:
+                continue
+            v = gen.entity(cls, want_default=False)
+            v1, v2 = with_array(v, 1, k), with_array(v, 2, k)
+            if v1 is None or v2 is None:
+                continue
+            try:
+                e1, e2 = cc.impl_encode(cls, to_py(cls, v1)), cc.impl_encode(cls, to_py(cls, v2))
+            except Exception:  # noqa
+                continue
+            if e1[0] != "ok" or e2[0] != "ok":
+                continue
+            a, b = e1[1], e2[1]
+            p = next((i for i in range(min(len(a), len(b))) if a[i] != b[i]), None)
+            if p is None:
+                continue
+            if cls.__flexible__ and a[p] == 2 and b[p] == 3:            # compact count: uvarint(count + 1)
+                for cnt in (2**28, 2**31 - 2, 2**32 - 2):
+                    cases.append({"cls": idx, "input": a[:p] + uvar(cnt + 1) + a[p + 1:], "what": f"compact array count {cnt} at byte {p}"})
+                got_k.add(k)
+                continue
+            if not cls.__flexible__ and p >= 3 and a[p - 3:p + 1] == b"\x00\x00\x00\x01":   # legacy count: int32
+                for cnt in (2**28, 2**31 - 1):
+                    cases.append({"cls": idx, "input": a[:p - 3] + cnt.to_bytes(4, "big") + a[p + 1:], "what": f"legacy array count {cnt} at byte {p - 3}"})
+                got_k.add(k)
+                continue
+    return envprobe.allocation_probe(classes, cases) if cases else []
+
+
 def scaling_probe(ctx, classes, n_schema, gen):
     """The time clause, beyond the per-input budget: the same message shape at size n and at size 8n (the first
     array, the first string and the first bytes field blown up; valid, cut in the middle, and with a corrupted
@@ -142,8 +223,17 @@ def run(ctx):
                     ok, why = False, f"returned value cannot be re-encoded: {cc.err_name(e)}"
             case["c10_ok"], case["why"] = ok, why
             cases.append(case)
-    failing, errors = cc.run_coq_cases(ctx["build"], "C10", cases, kind="dcase")
+    modelled = [i for i, c in enumerate(cases) if not c.get("skip_model")]
+    failing_m, errors = cc.run_coq_cases(ctx["build"], "C10", [cases[i] for i in modelled], kind="dcase")
+    failing = [modelled[i] for i in failing_m]
     viol = []
+    alloc = allocation_probe(ctx, classes, n_schema, gen)
+    greedy = [a for a in alloc if a["outcome"] not in _codec.PERMITTED and a["outcome"] != "ok" or a["peak"] > 4 * 2**20 + 64 * a["input_bytes"]
+              or a["seconds"] > 2.0]
+    if greedy:
+        viol.append({"kind": "property", "what": "a short malformed input with an inflated element count makes the decoder allocate or "
+                     "compute far beyond the input size, or fail with a forbidden error", "failing_input_found": True,
+                     "n_failing": len(greedy), "cases": greedy[:3]})
     scaling = scaling_probe(ctx, classes, n_schema, gen)
     slow = [x for x in scaling if x["verdict"] == "super-linear"]
     if slow:
@@ -174,10 +264,10 @@ def run(ctx):
         kinds[k] = kinds.get(k, 0) + 1
     cov = {
         "evaluations": len(cases), "distinct_nontrivial": len({(c["cls"], c["input"]) for c in cases if c["input"] != c["base"]}),
-        "traces_validated_against_impl": len(cases) - len(failing),
+        "traces_validated_against_impl": len(modelled) - len(failing), "implementation_only_cases": len(cases) - len(modelled),
         "rule": "per class one valid encoding mutated (truncate, overwrite, insert, delete, bit flip, length/continuation "
                 "bias, multi-byte, random bytes); non-trivial = differs from the valid encoding; distinct by (class, bytes)",
-        "time_scaling_probes": scaling, "decodes_repeated_under_other_interpreter_settings": n_env, "mutation_kinds": kinds, "distribution": _codec.distribution(cases, classes),
+        "time_scaling_probes": scaling, "allocation_probes": len(alloc), "allocation_probe_max_peak_bytes": max([a["peak"] for a in alloc] or [0]), "decodes_repeated_under_other_interpreter_settings": n_env, "mutation_kinds": kinds, "distribution": _codec.distribution(cases, classes),
         "samples": [_codec.describe_case(classes, c) for c in cases[:2]],
         "property_failures_on_implementation": len(prop_fail), "correspondence_disagreements": len(failing),
     }
